@@ -275,7 +275,8 @@ pub fn gen_case(prop: &str, rng: &mut Rng) -> Case {
     // appends of up to 70 items, limits far beyond the length, more consumers, one more stage in
     // free-form chains and (a third of them) a buffer of 128 messages — for whatever only breaks
     // beyond a small bound
-    let outsized = rng.chance(1, 24) && !no_big();
+    // (not under Miri, which is ~10^5 times slower: its sample keeps the ordinary sizes)
+    let outsized = rng.chance(1, 24) && !no_big() && !cfg!(miri);
     let n_steps = if outsized {
         50 + rng.below(110)
     } else {
